@@ -25,6 +25,7 @@ import (
 	"github.com/transparency-dev/witness/internal/persistence/inmemory"
 	"github.com/transparency-dev/witness/internal/verif/kit/ev"
 	"github.com/transparency-dev/witness/internal/verif/kit/refnote"
+	"github.com/transparency-dev/witness/internal/verif/kit/seams"
 	"github.com/transparency-dev/witness/internal/verif/kit/wit"
 	"github.com/transparency-dev/witness/omniwitness"
 	"golang.org/x/mod/sumdb/note"
@@ -61,7 +62,7 @@ func main() {
 	run := ev.Start("C17", "exploration")
 	defer run.Finish()
 	run.Exhaustive(true)
-	run.Rule("every entry of omniwitness/logs.yaml and omniwitness/logs_test.yaml as found in the working tree (the former compared with the embedded ConfigLogs) is a case: YAML decode, config.NewLog, AsLogMap collision check, known feeder, well-formed http(s) URL, Rekor treeID present; every entry with a feeder has its real FeedFunc run once against a transport that records and refuses every request (must reach a well-formed request to the configured host and fail with the transport's error, no panic); finally omniwitness.Main is started on the shipped configuration with polling on and must serve. evaluations = entries + feeder starts + Main starts; nontrivial = distinct entries that have a feeder")
+	run.Rule("every entry of omniwitness/logs.yaml and omniwitness/logs_test.yaml as found in the working tree (the former compared with the embedded ConfigLogs) is a case: YAML decode, config.NewLog, AsLogMap collision check, known feeder, well-formed http(s) URL, Rekor treeID present; every entry with a feeder has its real FeedFunc run once against a transport that records and refuses every request (must reach a well-formed request to the configured host and fail with the transport's error, no panic); finally omniwitness.Main is started on each shipped configuration with polling and the REST distributor on: it must serve, and the IDs its distributor looks up (Main's own derived log list, observed at the store) must be exactly the witness map's. evaluations = entries + feeder starts + Main starts; nontrivial = distinct entries that have a feeder")
 	run.Assume("network access is replaced by a refusing transport; only start-up and the first request of each feeder are exercised")
 	run.Floor("entries", 2)
 	repo := os.Getenv("VERIF_REPO")
@@ -84,7 +85,13 @@ func main() {
 		// Main would fail or crash the process for the reasons already recorded
 		return
 	}
-	startMain(run)
+	startMain(run, "logs.yaml", omniwitness.ConfigLogs)
+	if raw, err := os.ReadFile(filepath.Join(repo, "omniwitness", "logs_test.yaml")); err == nil && run.ViolationCount() == 0 {
+		saved := omniwitness.ConfigLogs
+		omniwitness.ConfigLogs = raw
+		startMain(run, "logs_test.yaml", raw)
+		omniwitness.ConfigLogs = saved
+	}
 }
 
 func checkFile(run *ev.Run, name string, raw []byte) {
@@ -203,7 +210,7 @@ func checkFile(run *ev.Run, name string, raw []byte) {
 }
 
 // startMain runs omniwitness.Main on the shipped configuration with polling on.
-func startMain(run *ev.Run) {
+func startMain(run *ev.Run, name string, raw []byte) {
 	keys, _ := wit.NewWitKeys(run.Rand("keys", 0), []bool{false, true}, true)
 	ln, err := net.Listen("tcp", "127.0.0.1:0")
 	if err != nil {
@@ -212,6 +219,18 @@ func startMain(run *ev.Run) {
 	}
 	defer ln.Close()
 	tr := &refusing{}
+	// the store records which log IDs the assembled service asks about: the distributor looks up every log of Main's own list
+	store := seams.NewHookStore(inmemory.NewPersistence())
+	var lmu sync.Mutex
+	looked := map[string]bool{}
+	store.SetHook(func(op, id string) error {
+		if op == seams.OpReadOps {
+			lmu.Lock()
+			looked[id] = true
+			lmu.Unlock()
+		}
+		return nil
+	})
 	ctx, cancel := context.WithCancel(context.Background())
 	done := make(chan error, 1)
 	var panicked any
@@ -222,8 +241,9 @@ func startMain(run *ev.Run) {
 				done <- fmt.Errorf("panic: %v", p)
 			}
 		}()
-		done <- omniwitness.Main(ctx, omniwitness.OperatorConfig{WitnessKeys: keys.Signers, WitnessVerifier: keys.Signers[1].(interface{ Verifier() note.Verifier }).Verifier(), FeedInterval: 100 * time.Millisecond},
-			inmemory.NewPersistence(), ln, &http.Client{Transport: tr})
+		done <- omniwitness.Main(ctx, omniwitness.OperatorConfig{WitnessKeys: keys.Signers, WitnessVerifier: keys.Signers[1].(interface{ Verifier() note.Verifier }).Verifier(), FeedInterval: 100 * time.Millisecond,
+			RestDistributorBaseURL: "http://distributor.invalid", DistributeInterval: 150 * time.Millisecond},
+			store, ln, &http.Client{Transport: tr})
 	}()
 	run.Count("evaluations")
 	ok := false
@@ -263,6 +283,31 @@ func startMain(run *ev.Run) {
 		run.Violate("main_not_serving", "omniwitness.Main did not serve its HTTP API on the shipped configuration", -1, nil)
 		return
 	}
+	// Main's list (seen through the distributor) and the witness map must describe the same logs
+	var cfg omniwitness.LogConfig
+	if err := yaml.Unmarshal(raw, &cfg); err == nil {
+		if m, err := cfg.AsLogMap(); err == nil {
+			var missing []string
+			lmu.Lock()
+			for id, info := range m {
+				if !looked[id] {
+					missing = append(missing, info.Origin)
+				}
+			}
+			var extra []string
+			for id := range looked {
+				if _, ok := m[id]; !ok {
+					extra = append(extra, id)
+				}
+			}
+			lmu.Unlock()
+			sort.Strings(missing)
+			if len(missing) > 0 || len(extra) > 0 {
+				run.Violate("main_log_list_differs_from_witness_map;"+name, fmt.Sprintf("%s: the running service never distributes %d log(s) the witness knows (%v) and looks up %d unknown ID(s)", name, len(missing), missing, len(extra)), -1, map[string]any{"missing_origins": missing, "extra_ids": extra})
+			}
+			run.Count("main_list_vs_map_checked")
+		}
+	}
 	tr.mu.Lock()
 	hosts := map[string]int{}
 	for _, u := range tr.seen {
@@ -270,5 +315,5 @@ func startMain(run *ev.Run) {
 	}
 	tr.mu.Unlock()
 	run.Count("main_started")
-	run.Extra("main_polled_hosts", hosts)
+	run.Extra("main_polled_hosts:"+name, hosts)
 }
